@@ -57,13 +57,37 @@ extern "C" void harness_main()
   for (int k = 0; k < 2; k++) s[k] = (SIMCLASS *)SIMCLASS::init(memory);
   init_n = 0; first_read_done = 0; logs[0].n = 0; logs[1].n = 0;   // forget what the constructors' reset() read or wrote
   // symbolic state: every byte of the derived class's own data members
-  const size_t base = sizeof(Simulate), total = sizeof(SIMCLASS);
+  // derived members may be placed in the base class's tail padding: start right after the base's last member
+  const size_t base = __builtin_offsetof(Simulate, serial_address) + sizeof(uint32_t), total = sizeof(SIMCLASS);
 #ifdef HAVOC_CUSTOM
   HAVOC_CUSTOM(s[0]);
   HAVOC_COPY(s[1], s[0]);
 #else
+#ifdef SIM_AVR8
+  uint8_t *keep_ram[2] = { s[0]->ram, s[1]->ram }; int keep_mask = s[0]->ram_mask, keep_size = s[0]->ram_size;
+#endif
   symx_make_symbolic((char *)s[0] + base, total - base, "state");
+  // representation invariants of the simulator classes (fields that every instruction keeps inside their range;
+  // a state outside them is not reachable by any history, so a failure from there would not be a finding)
+#ifdef SIM_AVR8
+  s[0]->ram = keep_ram[0]; s[0]->ram_mask = keep_mask; s[0]->ram_size = keep_size;     // heap pointer and its size are not data
+  // the private 8 KiB RAM is indexed by X/Y/Z/SP: they are kept below 256 here (bound: the engine case-splits a symbolic store over at most 1024 targets)
+  symx_assume(s[0]->reg[27] == 0 && s[0]->reg[29] == 0 && s[0]->reg[31] == 0 && s[0]->sp >= 2 && s[0]->sp < 250);
+#endif
+#ifdef SIM_1802
+  symx_assume(s[0]->reg_p <= 15 && s[0]->reg_x <= 15 && s[0]->reg_n <= 15 && s[0]->reg_i <= 15);   // 4-bit register selectors
+#endif
+#ifdef SIM_8008
+  symx_assume(s[0]->sp <= 7);                                                          // 3-bit stack index (push/pop mask it)
+#endif
+#ifdef SIM_TMS1000
+  symx_assume(s[0]->reg_x <= 3 && s[0]->reg_y <= 15 && s[0]->reg_a <= 15 && s[0]->pc <= 63 && s[0]->pa <= 15 && s[0]->pb <= 15 && s[0]->cl <= 1 && s[0]->s_flag <= 1 && s[0]->sr <= 63);
+#endif
   memcpy((char *)s[1] + base, (char *)s[0] + base, total - base);
+#ifdef SIM_AVR8
+  s[1]->ram = keep_ram[1];
+  memcpy(s[1]->ram, s[0]->ram, 64);
+#endif
 #endif
   uint32_t bio = symx_u32("break_io");
   s[0]->break_io = bio; s[1]->break_io = bio;
@@ -73,8 +97,9 @@ extern "C" void harness_main()
   int r[2];
   for (cur = 0; cur < 2; cur++)
   {
+    Simulate::stop_running = false;          // the static stop flag is part of the starting state
     r[cur] = s[cur]->run(-1, 1);
-    symx_assert(r[cur] == 0 || r[cur] == -1, "a step returns executed (0) or illegal instruction (-1)");
+    symx_assert(r[cur] == 0 || r[cur] == -1 || r[cur] == -2, "a step returns executed (0), illegal instruction (-1) or break (-2)");
   }
   symx_note("ret", (uint32_t)r[0]);
   // determinism: same result, same register state, same memory effects
@@ -82,6 +107,9 @@ extern "C" void harness_main()
 #ifdef HAVOC_CUSTOM
   symx_assert(STATE_EQUAL(s[0], s[1]), "repeating the step from the same state gives the same register state");
 #else
+#ifdef SIM_AVR8
+  s[1]->ram = s[0]->ram;      // compare everything except the two heap pointers themselves
+#endif
   symx_assert(symx_mem_equal((char *)s[0] + base, (char *)s[1] + base, total - base), "repeating the step from the same state gives the same register state");
 #endif
   symx_assert(logs[0].n == logs[1].n, "repeating the step performs the same number of memory writes");
